@@ -1,8 +1,9 @@
 """C11 -- constrained CP returns factors satisfying every requested hard constraint.
 
 Domain = the constraint specifications enumerated by Constraints.tla (<= 2 keywords x {scalar, list,
-dict} x every mode subset, orders 3 and 4), exported from TLC's design run, where the theorems about
-the documented mapping are checked.
+dict} x every mode subset, orders 3 and 4; a dict carries the ORDER in which its keys were written
+-- every key order for single keywords -- and per-mode parameters differ), exported from TLC's design
+run, where the theorems about the documented mapping are checked.
 
 Binding 1 ("map" events): every specification goes to the real validate_constraints (once per mode)
 and to constrained_parafac (1 outer / 1 inner iteration, tiny signed tensor).
@@ -220,8 +221,8 @@ def run(chk, opts):
     accepted = [c for c in specs if not c["rej"] and has_hard_request(c)]
     singles = [c for c in accepted if len(c["items"]) == 1]
     pairs = [c for c in accepted if len(c["items"]) == 2]
-    per_single = int(opts.get("per_single", 0)) or (len(runcfgs[3]) if thorough else 6)
-    npairs = int(opts.get("pairs", 0)) or (24000 if thorough else 2400)
+    per_single = int(opts.get("per_single", 0)) or (72 if thorough else 4)
+    npairs = int(opts.get("pairs", 0)) or (24000 if thorough else 2000)
     picked = []
     for c in singles:
         cfgs = runcfgs[c["n"]]
